@@ -117,7 +117,7 @@ CONTEXTS = {"none": {}, "literal_enums": {"literal_enums": True}, "docstrings": 
             "all-tags": {"generate_all_tags": True}, "no-title-prefix": {"use_path_prefixes_for_title_model_names": False}}
 OPTIONS = ["project_name_override", "package_name_override", "both_name_overrides", "package_version_override", "class_override_class", "class_override_module",
            "class_override_both", "class_override_enum", "class_override_merge", "field_prefix_attr", "field_prefix_f", "use_path_prefixes_off", "literal_enums", "docstrings_on_attributes", "generate_all_tags",
-           "content_type_overrides", "meta_flavours", "file_encoding_utf16", "file_encoding_utf8sig", "post_hooks", "output_path", "custom_templates"]
+           "content_type_overrides", "meta_flavours", "file_encoding_utf16", "file_encoding_utf8sig", "post_hooks", "output_path", "custom_templates", "custom_templates_x_file_encoding"]
 
 
 def cases(tier):
@@ -538,6 +538,32 @@ def run_case(p):
                     V("encoding-changes-text", role(f), f"{f}: decoded text differs under {enc}")
             except UnicodeDecodeError:
                 V("encoding-not-applied", role(f), f"{f} is not valid {enc}")
+    elif opt == "custom_templates_x_file_encoding":
+        # --file-encoding is the encoding of what is WRITTEN; custom templates are read as the UTF-8 files they are
+        marker = "# C16-MARKER caf\u00e9 m\u00e9thodes \u00f1 \u00fc \u2014 fin\n"
+        tdir = os.path.join(gen.REPO, "openapi_python_client", "templates")
+        for t in ("api_init.py.jinja", "model.py.jinja", "README.md.jinja", "types.py.jinja"):
+            custom = gen.fresh_dir("tmpl")
+            os.makedirs(custom, exist_ok=True)
+            with open(os.path.join(custom, t), "w", encoding="utf-8") as f:
+                f.write(open(os.path.join(tdir, t), encoding="utf-8").read() + "\n" + marker)
+            try:
+                ref_ = gen.generate(copy.deepcopy(doc), meta="poetry", custom_template_path=custom, **dict(ctx))
+                for enc in ("cp1252", "utf-16", "utf-8-sig", "mac_roman"):
+                    new = gen.generate(copy.deepcopy(doc), meta="poetry", custom_template_path=custom, encoding=enc, **dict(ctx))
+                    steps += 1
+                    if ref_.crash or new.crash or ref_.tree is None or new.tree is None:
+                        V("encoding-breaks-generation", t, f"{enc}: {new.crash or ref_.crash or 'rejected'}", k=f"{key}/{enc}")
+                        continue
+                    for f_ in sorted(set(ref_.tree) | set(new.tree)):
+                        a_, b_ = ref_.tree.get(f_), new.tree.get(f_)
+                        try:
+                            if a_ is None or b_ is None or b_.decode(enc) != a_.decode("utf-8"):
+                                V("encoding-changes-text", role(f_), f"custom {t}, --file-encoding {enc}: decoded text of {f_} differs from the UTF-8 generation", k=f"{key}/{enc}")
+                        except UnicodeDecodeError:
+                            V("encoding-not-applied", role(f_), f"{f_} is not valid {enc}", k=f"{key}/{enc}")
+            finally:
+                shutil.rmtree(custom, ignore_errors=True)
     elif opt == "post_hooks":
         base = _gen(doc, ctx)
         hooks = ["echo first >> hooks.log", "echo second >> hooks.log", "cp hooks.log copy.log"]
@@ -555,6 +581,19 @@ def run_case(p):
             V("failing-hook-silent", "hooks", "a failing hook produced no error-level diagnostic")
         if failing.tree.get("hooks.log") != b"before\nafter\n":
             V("hooks-order", "hooks", f"with a failing hook in the middle: {failing.tree.get('hooks.log')!r}", k=key + "/failing")
+        # a hook whose executable is not installed is skipped with a warning; the other hooks of the list still run, in order
+        for name_, hooks_, want_ in (("missing-first", ["c16-no-such-tool --x", "echo a >> hooks.log", "echo b >> hooks.log"], b"a\nb\n"),
+                                     ("missing-middle", ["echo a >> hooks.log", "c16-no-such-tool", "echo b >> hooks.log"], b"a\nb\n"),
+                                     ("two-missing-first", ["c16-no-such-tool", "c16-neither-this", "echo b >> hooks.log"], b"b\n"),
+                                     ("missing-last", ["echo a >> hooks.log", "c16-no-such-tool"], b"a\n")):
+            r_ = _gen(doc, ctx, post_hooks=hooks_)
+            steps += 1
+            if r_.crash or r_.tree is None:
+                V("hooks-missing-tool", "hooks", f"{name_}: {r_.crash or 'rejected'}", k=key + "/" + name_)
+            elif r_.tree.get("hooks.log") != want_:
+                V("hooks-missing-tool", "hooks", f"{name_}: hooks {hooks_} left hooks.log = {r_.tree.get('hooks.log')!r}, expected {want_!r}", k=key + "/" + name_)
+            elif {k_: v_ for k_, v_ in r_.tree.items() if k_ in base.tree} != base.tree:
+                V("hooks-change-tree", "tree", f"{name_}: generated files differ", k=key + "/" + name_)
     elif opt == "output_path":
         base = _gen(doc, ctx, meta="poetry")
         d = gen.fresh_dir("cwd")
